@@ -41,6 +41,7 @@ FLOW_SHAPES = [
     "try:\n    s0\n    s1\nfinally:\n    s2\n    s3",
     "try:\n    s0\n    s1\nexcept a0:\n    s2\n    s3",
     "try:\n    s0\nexcept a0 as x:\n    s1\n    s2",
+    "try:\n    s0\nexcept a0 as x:\n    del x",  # the handler may unbind its own name: the implicit unbinding at its end must tolerate that
     "try:\n    s0\nexcept a0:\n    s1\nexcept a1:\n    s2",
     "try:\n    s0\nexcept:\n    s1",
     "try:\n    s0\nexcept a0:\n    s1\nelse:\n    s2\n    s3\nfinally:\n    s4\n    s5",
